@@ -467,6 +467,36 @@ def valid_combinations(ctx, env, watch):
                     ctx.count('http:not-started-yet')
                     if st == 'HANG' or (isinstance(st, int) and st >= 500):
                         sites.setdefault('http:%s' % (site or st), []).append((url, st))
+        # segment numbers and times at both ends of what exists (and far outside), every track kind, vod and live, single- and
+        # multi-period routes: 200 or 404, never an exception
+        with env.app.app_context():
+            tracks = []
+            for nm, ext in (('bbb_v7', 'm4v'), ('bbb_a1', 'm4a'), ('bbb_t1', 'mp4'), ('bbb_v7_enc', 'm4v')):
+                mf = env.models.MediaFile.get(name=nm)
+                if mf is not None and mf.representation is not None:
+                    rp = mf.representation
+                    tracks.append((nm, ext, rp.start_number, rp.num_media_segments, rp.segment_duration))
+        for nm, ext, sn, n, sd in tracks:
+            nums = [-1, 0, sn - 1, sn, sn + 1, sn + n - 2, sn + n - 1, sn + n, sn + n + 1, sn + 2 * n, 2**31 - 1, 2**31, 2**63, 10**30]
+            times = [0, 1, sd - 1, sd, sd * (n - 1), sd * n - 1, sd * n, sd * n + 1, sd * (n + 1), 2**32, 2**63, 10**30]
+            for mode in ('vod', 'live'):
+                for q in ('', '?start=epoch', '?start=today&depth=20'):
+                    urls = ['/dash/%s/bbb/%s/%d.%s%s' % (mode, nm, k, ext, q) for k in nums]
+                    urls += ['/dash/%s/bbb/%s/time/%d.%s%s' % (mode, nm, t_, ext, q) for t_ in times]
+                    if nm in ('bbb_v7', 'bbb_a1') and q != '?start=epoch':
+                        with env.app.app_context():
+                            mps = env.models.MultiPeriodStream.get(name='mps1')
+                            ppks = [p_.pk for p_ in mps.periods] if mps is not None else []
+                        for ppk in ppks[:2]:
+                            urls += ['/mps/%s/mps1/%d/%s/%d.%s%s' % (mode, ppk, nm, k, ext, q) for k in nums]
+                            urls += ['/mps/%s/mps1/%d/%s/time/%d.%s%s' % (mode, ppk, nm, t_, ext, q) for t_ in times]
+                    for url in urls:
+                        st, site, r = watch.get(c, url)
+                        ctx.count('http:segment-boundaries')
+                        if st == 'HANG' or (isinstance(st, int) and st >= 500):
+                            sites.setdefault('http:%s' % (site or st), []).append((url, st))
+                        elif st == 200:
+                            ctx.nontriv(url)
     for key, hits in sorted(sites.items()):
         ctx.violation('GET %s answers %s: %s [%d requests with legitimate option values, e.g. %s]'
                       % (hits[0][0], hits[0][1], key[5:], len(hits), ' '.join(h[0] for h in hits[1:3])),
